@@ -28,7 +28,7 @@ let run (cases : case list) =
             let k = z_of_string id in
             st := fstep !st (FClose k); st := fstep !st (FClose (Z.add k (z_of_int 1000)));
             Printf.sprintf "open=%d intact=1 rooted=1" (openn ())
-          | ["aread"; _] | ["areadall"; _] | ["feed"; _; _] | ["poll"] | ["aaccept"; _] | ["connect"; _] -> Printf.sprintf "open=%d intact=1 rooted=1" (openn ())
+          | ["aread"; _] | ["pread"; _] | ["pwrites"; _; _] | ["areadall"; _] | ["feed"; _; _] | ["poll"] | ["aaccept"; _] | ["connect"; _] -> Printf.sprintf "open=%d intact=1 rooted=1" (openn ())
           | ["gcprobe"; m] -> Printf.sprintf "read=1 write=%d wantwrite=%d early=0" (if m = "both" then 1 else 0) (if m = "both" then 1 else 0)
           | kind :: id :: how :: _ ->
             if List.mem how fails then Printf.sprintf "ok=0 open=%d" (openn ())
@@ -56,7 +56,7 @@ let run (cases : case list) =
                 | Some n -> Hashtbl.remove o_live id; if openv <> !prev_open - n then fail i "3" op impl
                 | None -> if openv <> !prev_open then fail i "2" op impl)      (* a repeated Close released something *)
              end
-           | ["aread"; _] | ["areadall"; _] | ["feed"; _; _] | ["poll"] | ["aaccept"; _] | ["connect"; _] ->
+           | ["aread"; _] | ["pread"; _] | ["pwrites"; _; _] | ["areadall"; _] | ["feed"; _; _] | ["poll"] | ["aaccept"; _] | ["connect"; _] ->
              if kv_def t "intact" "1" <> "1" then fail i "2" op impl else if kv_def t "rooted" "1" <> "1" then fail i "4" op impl
            | ["gcprobe"; _] ->
              if kv_def t "early" "" <> "0" || kv_def t "read" "" <> "1" || kv_def t "write" "" <> kv_def t "wantwrite" "" then fail i "4" op impl
